@@ -397,7 +397,7 @@ class Gen:
     def p_map_new(self, game=None, **kw):
         game = game or self.r.choice(self.games)
         lists, meta, keys = gen_chart(self.d, game, self.hi, **kw)
-        return self.mk("map.new", game=game, lists=lists, meta=meta, how=self.d.choice(["items", "items", "df"]), out=self.new_h(), keys=keys)
+        return self.mk("map.new", game=game, lists=lists, meta=meta, how=self.d.choice(["items", "items", "items", "items", "df", "df", "df_extra"]), out=self.new_h(), keys=keys)
 
     def p_mapset_new(self, game=None):
         game = game or self.r.choice(["sm", "o2j", "base"])
@@ -624,8 +624,11 @@ class Gen:
                 v = 4
         if "bpm" in cols and opr == "-":
             opr = "+"
-        return self.mk("stack.assign", h=h.name, cols=cols, mask=self._mask_expr(h), opr=opr, v=v,
-                       cols_as_list=(len(cols) > 1 or self.r.random() < 0.3))
+        op = self.mk("stack.assign", h=h.name, cols=cols, mask=self._mask_expr(h), opr=opr, v=v,
+                     cols_as_list=(len(cols) > 1 or self.r.random() < 0.3))
+        if self.r.random() < 0.4:
+            op["mask_form"] = self.r.choice(["reversed", "by_value", "list", "ndarray"])
+        return op
 
     def p_convert(self, conv=None):
         # a converted chart as the SOURCE of another converter is not among the histories C08 lists
@@ -644,6 +647,8 @@ class Gen:
         op = self.mk("convert", conv=c, h=h.name, outs=[self.new_h() for _ in range(n)])
         if spec[4]:
             op["shift"] = self.r.choice([None, 0, 1, 2])
+            if op["shift"] is not None and self.r.random() < 0.5:
+                op["shift_positional"] = True
         if spec[6] and self.r.random() < 0.4:
             op["rbm"] = self.r.choice([False, False, True])  # the non-default raise_bad_mode
         return op
@@ -1209,6 +1214,8 @@ class GenC06(FileGen):
         op = self.mk("convert", conv=c, h=h.name, outs=[self.new_h() for _ in range(n)])
         if spec[4]:
             op["shift"] = self.r.choice([None, 0, 1, 2])
+            if op["shift"] is not None and self.r.random() < 0.5:
+                op["shift_positional"] = True
         if spec[6] and self.r.random() < 0.4:
             op["rbm"] = self.r.choice([False, False, True])  # the non-default raise_bad_mode
         return op
@@ -1296,7 +1303,7 @@ class GridMixin:
         keys = {"osu": self.d.choice([4, 7, 3, 6, 8]), "qua": self.d.choice([4, 7, 8]), "bms": self.d.choice([4, 7, 8, 6])}[game]
         lists = self.grid_chart(game, keys, tl, nm, exact, lcm_cap)
         meta = gen_map_meta(self.d, game, keys)
-        return [self.mk("map.new", game=game, lists=lists, meta=meta, how="items", out=self.new_h(), keys=keys)]
+        return [self.mk("map.new", game=game, lists=lists, meta=meta, how=self.d.choice(["items", "items", "items", "df", "df_extra"]), out=self.new_h(), keys=keys)]
 
 
 class GenC14F(GridMixin, GenC14):
@@ -1450,7 +1457,7 @@ class GenC05(GridMixin, FileGen):
         meta = dict(title=self.d.choice([b"Song", "曲".encode("shift_jis"), b"A B"]), artist=b"me", version=self.d.choice([b"1", b"12"]),
                     samples_dict=table, ln_end_channel=self.d.choice([b"ZZ", b"ZZ", b"ZY"]))
         h = self.new_h()
-        return self.mk("map.new", game="bms", lists=lists, meta=meta, how="items", out=h, keys=keys, layout=layout)
+        return self.mk("map.new", game="bms", lists=lists, meta=meta, how=self.d.choice(["items", "items", "items", "df", "df_extra"]), out=h, keys=keys, layout=layout)
 
     def p_bms_many_bpms(self):
         """many tempo points, one per measure, up to the last measure number the format has (999)"""
